@@ -142,7 +142,7 @@ func Run(tier string) int {
 	r.Rule("same program space as C02 (all write programs up to max_ops operations with at most dev_bound non-default choices per configuration); every produced file is read by the independent strict reader ref/pdffile (header, %%EOF, startxref, 20-byte table entries or xref stream /W /Index /Size, every in-use offset exactly at 'N G obj', exactly one entry per object below /Size, /Length up to the EOL before endstream, object stream /N /First and offset table, no unlisted object) and the extracted values (decrypted by the independent security handler ref/stdsec, decoded by independent codecs) are compared with the model; distinct = distinct (configuration, operation list) pairs with at least one operation")
 	r.Assume("ref/pdffile written from ISO 32000-2 7.5; ref/stdsec from 7.6; zlib, ascii85, tiff/lzw from outside go-pdf", "not judged (not in the statement): free-list threading, generation of object 0, whether the xref stream lists itself as in use")
 	plans := c02.Plans(r.Thorough())
-	c02.RunPlans(r, plans, &wprog.Env{FailedCallsFirst: true}, func(res *wprog.Result, choices []int) {
+	c02.RunPlans(r, plans, &wprog.Env{FailedCallsFirst: true, ManyObjects: true}, func(res *wprog.Result, choices []int) {
 		cs := wprog.Case{Cfg: res.Cfg, MaxOps: 99, Choices: append([]int{}, choices...), Ops: res.Ops}
 		if res.NumOps > 0 {
 			r.DistinctS(res.Cfg.String() + strings.Join(res.Ops, ";"))
@@ -174,7 +174,7 @@ func Replay(path string) int {
 	}
 	r := ev.New("C03", "quick", "model_checking", time.Minute)
 	r.SetReplayMode()
-	res := wprog.Replay(cs, &wprog.Env{FailedCallsFirst: true})
+	res := wprog.Replay(cs, &wprog.Env{FailedCallsFirst: true, ManyObjects: true})
 	fmt.Println("program:", strings.Join(res.Ops, "; "), "accepted:", res.Accepted, res.Reject)
 	if res.Accepted {
 		if f := Judge(res); f != nil {
